@@ -51,6 +51,15 @@ class Model:
             "T = TypeVar('T')",
             "class MyIter(Iterable[T]):",
             "    def own(self, n: int = 3) -> int: ...",
+            # a method named like an operator that a registered collection class also defines (RegColl.Take below), with a REQUIRED
+            # parameter; and methods that take no instance (on a generic class, reached through the parameterised alias MyIter[X])
+            "    def Take(self, n: int, m: int = 2) -> int: ...",
+            "    @staticmethod",
+            "    def scale_for(wp: str = 'loose', f: float = 1.0) -> float: ...",
+            "    @classmethod",
+            "    def reserve(cls, n: int = 4, pad: int = 1) -> int: ...",
+            "    @staticmethod",
+            "    def clamp(value: float, lo: float = 0.0, hi: float = 1.0) -> float: ...",
             "@register_func_adl_os_collection",
             "class RegColl(ObjectStreamInternalMethods[T]):",
             "    def __init__(self, a, item_type=Any):",
@@ -63,6 +72,13 @@ class Model:
         src += ["class Particle0:", f"    def dm({sig_text(pd)}) -> float: ...", "class Tagged(Particle0):", "    pass", "class Calibrated(Particle0):", f"    def dm({sig_text(cd)}) -> float: ..."]
         self.sigs[("Jet", "dm")] = cd
         self.ret[("Jet", "dm")] = "float"
+        E = inspect.Parameter.empty
+        for owner in ("MyIter", "Jet"):
+            self.sigs[(owner, "scale_for")] = [("wp", "str", "loose"), ("f", "float", 1.0)]
+            self.sigs[(owner, "reserve")] = [("n", "int", 4), ("pad", "int", 1)]
+            self.sigs[(owner, "clamp")] = [("value", "float", E), ("lo", "float", 0.0), ("hi", "float", 1.0)]
+        self.sigs[("MyIter", "Take")] = [("n", "int", E), ("m", "int", 2)]
+        self.sigs[("MyIter", "own")] = [("n", "int", 3)]
         for cls in ("Trk", "Jet", "Event"):
             src.append(f"class {cls}(Tagged, Calibrated):" if cls == "Jet" else f"class {cls}:")
             for m in names:
@@ -72,6 +88,8 @@ class Model:
                 self.ret[(cls, m)] = rt
                 src.append(f"    def {m}({sig_text(params)}) -> {rt}: ...")
             if cls == "Jet":
+                src += ["    @staticmethod", "    def scale_for(wp: str = 'loose', f: float = 1.0) -> float: ...", "    @classmethod", "    def reserve(cls, n: int = 4, pad: int = 1) -> int: ...",
+                        "    @staticmethod", "    def clamp(value: float, lo: float = 0.0, hi: float = 1.0) -> float: ..."]
                 for cm, ct in (("trks", "Iterable[Trk]"), ("trks_my", "MyIter[Trk]"), ("trks_reg", "RegColl[Trk]")):
                     params = gen_signature(rnd, 2)
                     self.sigs[(cls, cm)] = params
